@@ -256,6 +256,35 @@ class G:
                 if not t or t["k"] != "switch":
                     continue
                 e = strip(self.d.expr(t["discr"]))
+                if e[0] == "discr" and strip(e[1])[0] == "call" and strip(e[1])[2] == "cmp" and len(strip(e[1])[3]) == 2:
+                    # match X.cmp(&Y) { Less => (X, Y), Greater => (Y, X), Equal => .. }
+                    cx_ = strip(e[1])
+                    def peel_(z):
+                        z = strip(z)
+                        while z[0] in ("ref", "refmut", "deref"):
+                            z = strip(z[1])
+                        return z
+                    X, Y = self.param_path(peel_(cx_[3][0])), self.param_path(peel_(cx_[3][1]))
+                    if X is None or Y is None or {X, Y} != {tups[0][1], tups[0][2]}:
+                        continue
+                    tmc = {}
+                    for a, b2 in t["targets"]:
+                        v_ = int(a)
+                        tmc[-1 if v_ in (255, -1, 18446744073709551615) else v_] = b2
+                    less_b, greater_b = tmc.get(-1), tmc.get(1, t["otherwise"])
+                    okc = less_b is not None and greater_b is not None
+                    for (db_, p0, p1) in tups:
+                        on_l = db_ == less_b or less_b in self.dom.get(db_, set())
+                        on_g = db_ == greater_b or greater_b in self.dom.get(db_, set())
+                        if on_l and not on_g:
+                            okc = okc and (p0, p1) == (X, Y)
+                        elif on_g and not on_l:
+                            okc = okc and (p0, p1) == (Y, X)
+                        else:
+                            okc = False
+                    if okc:
+                        self._sorted[l] = {"params": {X, Y}}
+                    continue
                 if e[0] != "bin" or e[1] not in ("Lt", "Gt", "Le", "Ge"):
                     continue
                 X, Y = self.param_path(e[2]), self.param_path(e[3])
@@ -278,6 +307,35 @@ class G:
                 if ok:
                     self._sorted[l] = {"params": {X, Y}}
         return self._sorted
+
+    def equal_regions(self, pp):
+        """[(block, other parameter)]: from that block on, pp == other (the true edge of `pp == other`, the Equal arm of
+        `pp.cmp(&other)`)"""
+        out = []
+        b = self.body
+        for bi, bl in enumerate(b.blocks):
+            t = bl["term"]
+            if bl["cleanup"] or not t or t["k"] != "switch":
+                continue
+            e = strip(self.d.expr(t["discr"]))
+            tm = dict((int(a), b2) for a, b2 in t["targets"])
+            if e[0] == "bin" and e[1] in ("Eq", "Ne"):
+                X, Y = self.param_path(e[2]), self.param_path(e[3])
+                eqs = (t["otherwise"] if 0 in tm else tm.get(1)) if e[1] == "Eq" else tm.get(0, t["otherwise"])
+            elif e[0] == "discr" and strip(e[1])[0] == "call" and strip(e[1])[2] == "cmp" and len(strip(e[1])[3]) == 2:
+                def peel_(z):
+                    z = strip(z)
+                    while z[0] in ("ref", "refmut", "deref"):
+                        z = strip(z[1])
+                    return z
+                X, Y = self.param_path(peel_(strip(e[1])[3][0])), self.param_path(peel_(strip(e[1])[3][1]))
+                eqs = tm.get(0)
+            else:
+                continue
+            if X is None or Y is None or eqs is None or pp not in (X, Y):
+                continue
+            out.append((eqs, Y if X == pp else X))
+        return out
 
     def mentions_param(self, e, pp, at_block=None):
         sp = self.sorted_pair_vars()
@@ -462,6 +520,7 @@ def check_body(R, b, f, entries, RA, depth=0):
 def _check_pp(R, RA, g, gs, b, f, pp, pdesc, unit, role, depth, pnames):
     if True:
         found, wrong = None, []
+        founds = []          # every acceptable guard: different arms of a `match` may each carry their own
         for (bi, op, lo, ro, ok) in gs:
             pl, pr = g.mentions_param(lo, pp, bi), g.mentions_param(ro, pp, bi)
             if not (pl or pr) or op in ("Eq", "Ne"):
@@ -485,8 +544,10 @@ def _check_pp(R, RA, g, gs, b, f, pp, pdesc, unit, role, depth, pnames):
             if not strict_ok:
                 wrong.append("guard is `<=` but the index addresses an element (needs `<`): %s" % show(("bin", op, lo, ro), pnames))
                 continue
-            found = (bi, opn, "its dimension" if dims else "another guarded parameter", ok, show(("bin", op, lo, ro), pnames))
-            break
+            fnd_ = (bi, opn, "its dimension" if dims else "another guarded parameter", ok, show(("bin", op, lo, ro), pnames))
+            founds.append(fnd_)
+            if found is None:
+                found = fnd_
         via = None
         if not found and not wrong:
             # (a) ordered partner: `if X < Y { swap(&mut X, &mut Y) }` leaves Y <= X; a strict guard on X then bounds Y
@@ -536,7 +597,8 @@ def _check_pp(R, RA, g, gs, b, f, pp, pdesc, unit, role, depth, pnames):
             # domination of sensitive uses
             undominated = []
             for (ubi, span, what, rv) in g.sensitive_uses(pp):
-                if found[3] not in g.dom.get(ubi, set()) and ubi != found[0]:
+                oks_ = [x[3] for x in (founds or [found])]
+                if found[3] not in g.dom.get(ubi, set()) and ubi != found[0] and not (len(oks_) > 1 and _all_paths_pass(b, oks_, ubi)):
                     undominated.append((what, span))
                 elif ubi == found[0] and what.startswith("arith:"):
                     # use in the guard block itself: part of the guard expression (e.g. `dest.0 + cols <= num_cols`)
@@ -548,7 +610,21 @@ def _check_pp(R, RA, g, gs, b, f, pp, pdesc, unit, role, depth, pnames):
                 for rbi, rbl in enumerate(b.blocks):
                     tt = rbl["term"]
                     if tt and tt["k"] == "return" and not rbl["cleanup"] and rbi in g.body.reachable(0):
-                        if found[3] not in g.dom.get(rbi, set()):
+                        oks_ = [x[3] for x in (founds or [found])]
+                        # where the parameter is known to equal another one (`a == b`, `a.cmp(&b) == Equal`), that one's guards count
+                        for (eqb, other) in g.equal_regions(pp):
+                            if True:
+                                for (gbi, gop, glo, gro, gok) in gs:
+                                    if not (gok == eqb or eqb in g.dom.get(gok, set())):
+                                        continue          # only guards taken inside the region where the two are equal
+                                    pl_, pr_ = g.mentions_param(glo, other, gbi), g.mentions_param(gro, other, gbi)
+                                    if not (pl_ or pr_) or gop in ("Eq", "Ne"):
+                                        continue
+                                    oth_ = gro if pl_ else glo
+                                    opn_ = gop if pl_ else {"Lt": "Gt", "Le": "Ge", "Gt": "Lt", "Ge": "Le"}[gop]
+                                    if opn_ in ("Lt", "Le") and unit in g.dims_in(oth_) and (opn_ == "Lt" or role == "endpoint"):
+                                        oks_.append(gok)
+                        if found[3] not in g.dom.get(rbi, set()) and not (len(oks_) > 1 and _all_paths_pass(b, oks_, rbi)):
                             byp.append(rbi)
                 R.inst(b.ident, "%s: every normal return is dominated by the guard (an out-of-range value cannot return normally)" % pdesc, not byp)
                 if byp:
